@@ -48,6 +48,7 @@ class CreateBranch(APIEndpoint):
     method = 'POST'
     admin = True
     job = CreateBranchJob
+    json_fields = ('branch_from',)
 
     @staticmethod
     def validate_endpoint_data(branch, json):
